@@ -70,6 +70,26 @@ type Destination struct {
 
 // New creates a destination object. Note that it still needs to be told to run via Run().
 func New(routeName string, matcher matcher.Matcher, addr, spoolDir string, spool, pickle bool, periodFlush, periodReConn time.Duration, connBufSize, ioBufSize, spoolBufSize int, spoolMaxBytesPerFile, spoolSyncEvery int64, spoolSyncPeriod, spoolSleep, unspoolSleep time.Duration) (*Destination, error) {
+	// these end up in tickers, channels and buffers created when the destination runs:
+	// refuse values that would make those panic later, in a background goroutine
+	if periodFlush <= 0 {
+		return nil, errors.New("flush interval must be > 0")
+	}
+	if periodReConn <= 0 {
+		return nil, errors.New("reconnect interval must be > 0")
+	}
+	if connBufSize < 0 {
+		return nil, errors.New("connbuf must be >= 0")
+	}
+	if ioBufSize <= 0 {
+		return nil, errors.New("iobuf must be > 0")
+	}
+	if spool && spoolBufSize < 0 {
+		return nil, errors.New("spoolbuf must be >= 0")
+	}
+	if spool && spoolSyncPeriod <= 0 {
+		return nil, errors.New("spoolsyncperiod must be > 0")
+	}
 	key := util.Key(routeName, addr)
 	addr, instance := addrInstanceSplit(addr)
 	dest := &Destination{
